@@ -4,13 +4,14 @@
    Formats whose parts are not expressions of the generated tables (or default
    dump formats) yield DUnmodelled.  No proofs in here. *)
 From Coq Require Import ZArith QArith Qround List Bool String Ascii.
-From Iso Require Import Spec.Cal Model.Num Model.Helpers Model.Duration Model.TimePoint Model.Forms
+From Iso Require Import Spec.Cal Spec.Instant Model.Num Model.Helpers Model.Duration Model.TimePoint Model.Forms
   Model.Parse Model.LocalZone.
 Import ListNotations.
 Local Open Scope string_scope.
 Local Open Scope Z_scope.
 
-Inductive dres := DOk (s : string) | DBounds | DSyntax | DOverflow | DErr | DUnmodelled.
+Inductive dres := DOk (s : string) | DBounds | DSyntax | DOverflow | DErr | DUnmodelled
+  | DBadInput.   (* BadInputError: a literal zone of a custom format outside the bounds of TimeZone.__init__ *)
 
 (* '%0Wd' % n for an integer n (negative numbers keep their sign inside the width) *)
 Fixpoint zeros (n : nat) : string := match n with O => "" | S k => "0" ++ zeros k end.
@@ -201,9 +202,12 @@ Definition dump_with (md : mode) (p : tp) (tmpl : list dtok) (props : list strin
   match p1 with
   | None => DErr
   | Some q =>
+    (* TimeZone(hours=h, minutes=m) raises BadInputError outside its bounds (Spec/Instant.v valid_zone;
+       proved of TimeZone.__init__ in Props/C09Code.v); (0, 0) goes through to_utc *)
+    if match cz with Some (h, m) => negb (valid_zone (mkZone h m)) | None => false end then DBadInput else
     let p2 := match cz with
               | None => Some q
-              | Some (h, m) => to_time_zone md q (mkZone h m)      (* TimeZone(...) bounds are those of a parsed zone *)
+              | Some (h, m) => to_time_zone md q (mkZone h m)
               end in
     match p2 with
     | None => DErr
